@@ -149,7 +149,7 @@ package sqlittle
 // first, in primary-key order, matched by name ignoring case.
 //@ macro PKFIRST(schema, i, k) = 0 <= i && i < len(schema.Columns) && 0 <= k && k < len(schema.PK) && streq(str_lower(schema.PK[k].Column), str_lower(schema.Columns[i].Column)) && (forall qm int :: 0 <= qm && qm < k ==> !streq(str_lower(schema.PK[qm].Column), str_lower(schema.Columns[i].Column)))
 //@ func sqlittle.columnStoreOrder
-//@   props C10 C05
+//@   props C10 C05 C01 C02
 //@   modifies alloc
 //@   requires schema != nil && schema.WithoutRowid
 //@   ensures [len] len(result) == len(schema.Columns)
